@@ -43,6 +43,10 @@ def run(ctx, rep):
         # the getter closure is a plain lookup in the map whose keys are handed over (shared with C05.BIND)
         from props import c05
         c05.check_getter(crate, rep, cfg)
+        # the two depth counters are a bound only together: each child VM must carry BOTH (a component <-> include recursion otherwise
+        # resets one at every step and overflows the stack)
+        c05.check_rec(crate, rep, cfg)
+        c05.check_child_vm(crate, rep, cfg)
         import rpanic
         rpanic.check(crate, rep, "R-PANIC.render", ("vm/interpreter.rs", "vm/state.rs", "vm/for_loop.rs", "vm/stack.rs", "value/mod.rs", "value/number.rs", "value/key.rs"), cfg, 40)
 
